@@ -68,9 +68,12 @@ def _normalise(node):
 
 
 class Crate:
-    def __init__(self, path):
-        with open(path) as fh:
-            d = json.load(fh)
+    def __init__(self, path, text=None):
+        if text is not None:
+            d = json.loads(text)
+        else:
+            with open(path) as fh:
+                d = json.load(fh)
         _normalise(d["fns"])
         self.raw = d
         self.prefix = d["prefix"]
@@ -88,8 +91,13 @@ class Program:
 
     def __init__(self, fdir):
         self.dir = fdir
-        self.lib = Crate(os.path.join(fdir, "lace-lib.json"))
-        self.bin = Crate(os.path.join(fdir, "lace-bin.json"))
+        # rename-robust anchors: functions of the reference tree that were merely renamed/moved get their reference name back
+        from . import alias
+        paths = [os.path.join(fdir, "lace-lib.json"), os.path.join(fdir, "lace-bin.json")]
+        texts = [open(p_).read() for p_ in paths]
+        texts, self.aliases = alias.canonicalise(texts)
+        self.lib = Crate(paths[0], texts[0])
+        self.bin = Crate(paths[1], texts[1])
         self.header = json.load(open(os.path.join(fdir, "header.json")))
         self.fns = {}
         self.fns.update(self.lib.fns)
